@@ -7,6 +7,7 @@ import (
 
 	"github.com/Comcast/sheens/core"
 	"github.com/Comcast/sheens/crew"
+	"github.com/Comcast/sheens/match"
 	"github.com/Comcast/sheens/verifrt/vh"
 )
 
@@ -144,10 +145,35 @@ func c14Fussy(c *vh.Ctx, idx *uint64) {
 	}
 	if c.Replay != "" {
 		var cs fussyCase
+		if c.LoadReplay(&cs) == nil && cs.Kind == "native-reemit" {
+			c.Eval()
+			for _, v := range nativeReemitRun() {
+				if v[0] != "<harness>" {
+					c.Violation("C14/sio/native-reemit/"+v[0], v[1], cs)
+				}
+			}
+			return
+		}
 		if c.LoadReplay(&cs) == nil && cs.Kind != "" {
 			one(cs)
 		}
 		return
+	}
+	*idx++
+	if c.Mine(*idx) && !c.Expired() {
+		c.Eval()
+		c.R.States++
+		vs := nativeReemitRun()
+		if len(vs) == 0 {
+			c.Nontrivial()
+		}
+		for _, v := range vs {
+			if v[0] == "<harness>" {
+				c.NotExhaustive("C14sio native re-emit: " + v[1])
+				continue
+			}
+			c.Violation("C14/sio/native-reemit/"+v[0], v[1], fussyCase{Kind: "native-reemit"})
+		}
 	}
 	alpha := []string{"n", "B", "b1", "n1"}
 	var rec func(seq []string, kind string)
@@ -168,4 +194,73 @@ func c14Fussy(c *vh.Ctx, idx *uint64) {
 	for _, kind := range []string{"listening", "default", "branchless", "optional-var"} {
 		rec(nil, kind)
 	}
+}
+
+// ---- a native action that emits a request to the timers machine carrying a message, and then that very message (the
+// same Go map) unrouted: what one recipient does with a message it was sent is not seen by the others --------------
+
+func nativeReemitRun() (vs [][2]string) {
+	c, err := newTestCrew()
+	if err != nil {
+		return [][2]string{{"<harness>", err.Error()}}
+	}
+	ctx := context.Background()
+	emitter := &core.Spec{Name: "emitter", Nodes: map[string]*core.Node{
+		"start": {Branches: &core.Branches{Type: "message", Branches: []*core.Branch{{Pattern: map[string]interface{}{"go": "?g"}, Target: "act"}}}},
+		"act": {Action: &core.FuncAction{F: func(ctx context.Context, bs match.Bindings, props core.StepProps) (*core.Execution, error) {
+			exe := core.NewExecution(match.NewBindings())
+			m := map[string]interface{}{"trail": "tea", "n": 0.0}
+			exe.AddEmitted(map[string]interface{}{"to": "timers", "makeTimer": map[string]interface{}{"id": "later", "in": "1h", "to": "r2", "msg": m}})
+			exe.AddEmitted(m)
+			return exe, nil
+		}}, Branches: &core.Branches{Branches: []*core.Branch{{Target: "start"}}}},
+	}}
+	if err := emitter.Compile(ctx, nil, true); err != nil {
+		return [][2]string{{"<harness>", err.Error()}}
+	}
+	// (a machine with a native action cannot come from a specification source - sources travel as JSON; a Go host
+	// that embeds the crew puts it there itself)
+	c.Machines["e"] = &crew.Machine{Id: "e", State: &core.State{NodeName: "start", Bs: match.NewBindings()}, Specter: emitter}
+	for _, id := range []string{"r2", "r3"} {
+		if err := c.SetMachine(ctx, id, &crew.SpecSource{Inline: fussySpec("default")}, &core.State{NodeName: "start", Bs: map[string]interface{}{"mode": "none"}}); err != nil {
+			return [][2]string{{"<harness>", err.Error()}}
+		}
+	}
+	var r *Result
+	var perr error
+	if p, pm, where := vh.Trap(func() { r, perr = c.ProcessMsg(ctx, map[string]interface{}{"to": "e", "go": 1.0}) }); p {
+		return [][2]string{{"panic", pm + " @" + where}}
+	}
+	defer vh.Trap(func() { c.ProcessMsg(ctx, map[string]interface{}{"to": "timers", "cancelTimer": "later"}) })
+	if perr != nil {
+		return [][2]string{{"processing-failed", perr.Error()}}
+	}
+	for _, id := range []string{"r2", "r3"} {
+		var got []string
+		if mm := c.Machines[id]; mm != nil && mm.State != nil {
+			if l, ok := mm.State.Bs["log"].([]interface{}); ok {
+				for _, x := range l {
+					got = append(got, fmt.Sprint(x))
+				}
+			}
+		}
+		if fmt.Sprint(got) != "[tea]" {
+			vs = append(vs, [2]string{"unrouted-message-not-presented-to-everybody", fmt.Sprintf("a native action emitted a timer request carrying the message {trail: tea} and then that message itself, unrouted: machine %s recorded %v, expected [tea]", id, got)})
+		}
+	}
+	// reported as emitted: the request and the unrouted message, as they were emitted
+	var unrouted int
+	for _, b := range r.Emitted {
+		for _, m := range b {
+			if mm, ok := m.(map[string]interface{}); ok && mm["trail"] == "tea" {
+				if _, has := mm["to"]; !has {
+					unrouted++
+				}
+			}
+		}
+	}
+	if unrouted != 1 {
+		vs = append(vs, [2]string{"reported-emission-differs-from-what-was-emitted", fmt.Sprintf("the machine emitted {trail: tea} without a target once; the host is told of %d such messages", unrouted)})
+	}
+	return
 }
